@@ -123,6 +123,11 @@ def check_pattern(ctx, toks, fnames, paths, api_sample=False, noescape=()):
 
 
 TEMPLATES = [
+    # two stars in front of an extended list at the start of a segment: the second star opens the list (also under GLOBSTAR)
+    ((('star',), ('grp', '*', ((('lit', 'a'),), (('lit', 'b'),))), ('lit', 'c')), '', ['abc', 'xc', 'c', 'xabc', '(a|b)c', 'x(a|b)c', 'a/c', 'bc', 'ab', 'x/c']),
+    ((('lit', 'd'), ('sep', '/'), ('star',), ('grp', '*', ((('lit', 'a'),),))), '', ['d/a', 'd/xa', 'd/', 'd/x', 'd/(a)', 'd/x/a', 'd/aa', 'd']),
+    ((('gstar',), ('sep', '/'), ('star',), ('grp', '*', ((('lit', 'x'),),))), '', ['x', 'a/x', 'a/bx', 'a/b/xx', 'a', 'a/(x)', 'ax']),
+    ((('star',), ('grp', '*', ((('lit', 'a'),),)), ('sep', '/'), ('lit', 'b')), '', ['a/b', 'xa/b', 'x/b', '(a)/b', '/b', 'b', 'aa/b']),
     # `/` inside brackets makes the bracket literal
     ((('lit', 'a'), ('lit', '['), ('sep', '/'), ('lit', ']'), ('lit', 'b')), '[]', ['a[/]b', 'a[', 'a/b', 'ab', 'a[/b', 'a//b']),
     ((('lit', '['), ('lit', 'a'), ('sep', '/'), ('lit', 'b'), ('lit', ']')), '[]', ['[a/b]', 'a', 'b', 'a/b', '/']),
@@ -200,10 +205,51 @@ def group_separator_templates(ctx):
                             ctx.mark_nontrivial((plain, fn))
 
 
+def degenerate_patterns(ctx):
+    """The empty pattern (alone, as a list element, as an empty SPLIT / BRACE alternative) denotes nothing, whatever implicit prefix
+    the flags would put in front of a real pattern; it changes nothing next to other patterns."""
+    names = ['a', 'a/b', 'b', 'a/', '/', 'x/y/b', '.a', 'a/.b', ' ', '\n', 'a\n', '//']
+    idx = 0
+    for fn in FLAGSETS:
+        for extra in ((), ('NEGATE',), ('DOTGLOB', 'NEGATE', 'NEGATEALL')):
+            idx += 1
+            if not ctx.mine(idx):
+                continue
+            flags = flags_of(('EXTGLOB',) + fn + extra)
+            with ctx.case(label=('degenerate', fn, extra)):
+                for as_bytes in (False, True):
+                    c = (lambda x: x.encode()) if as_bytes else (lambda x: x)
+                    try:
+                        nothing = [('empty text', c('')), ('list holding the empty text', [c('')]), ('tuple of two empty texts', (c(''), c(''))), ('empty list', []),
+                                   ('lone backslash', c('\\'))]
+                        for what, pat in nothing:
+                            got = [n for n in names if G.globmatch(c(n), pat, flags=flags)] + [n for n in G.globfilter([c(n) for n in names], pat, flags=flags)]
+                            ctx.evals(2 * len(names))
+                            ctx.count('degenerate_pattern_checks')
+                            if got:
+                                ctx.disagree('a pattern without text matches something', {'api': 'glob.globmatch / globfilter', 'pattern': repr(pat), 'what': what,
+                                                                                         'flags': list(('EXTGLOB',) + fn + extra), 'matched': [repr(x) for x in got[:6]]})
+                        base = [G.globmatch(c(n), c('b'), flags=flags) for n in names]
+                        same = [('b| under SPLIT', c('b|'), G.SPLIT), ('|b under SPLIT', c('|b'), G.SPLIT), ('list [b, empty]', [c('b'), c('')], 0),
+                                ('list [empty, b]', [c(''), c('b')], 0), ('{b,} under BRACE', c('{b,}'), G.BRACE), ('b||b under SPLIT', c('b||b'), G.SPLIT)]
+                        for what, pat, fl in same:
+                            got = [G.globmatch(c(n), pat, flags=flags | fl) for n in names]
+                            ctx.evals(len(names))
+                            ctx.count('degenerate_pattern_checks')
+                            if got != base:
+                                ctx.disagree('an empty alternative / list element changes what the other pattern matches',
+                                             {'api': 'glob.globmatch', 'pattern': repr(pat), 'what': what, 'flags': list(('EXTGLOB',) + fn + extra),
+                                              'names': names, 'alone': base, 'with_empty': got})
+                    except Exception as e:  # noqa: BLE001
+                        ctx.disagree(f'globmatch raised {type(e).__name__} for a degenerate pattern', {'flags': list(('EXTGLOB',) + fn + extra), 'exception': repr(e)[:200]})
+                ctx.mark_nontrivial(('degenerate', fn, extra))
+
+
 def run(ctx):
     quick = ctx.quick
     idx = 0
     group_separator_templates(ctx)
+    degenerate_patterns(ctx)
     # ---- fixed templates under every flag set -------------------------------------------------
     for ti, (toks, noesc, paths) in enumerate(TEMPLATES):
         for fi, fn in enumerate(FLAGSETS):
